@@ -43,9 +43,20 @@ impl Display for CompoundKind {
     }
 }
 
-#[derive(Debug, Eq, PartialEq, Clone, Default)]
+#[derive(Eq, PartialEq, Clone, Default)]
 pub struct Bind {
     bound_generics: HashMap<Identifier, Arc<XType>>,
+}
+
+// error messages quote types through Debug: the text must not depend on the hash map's per-instance random order
+impl Debug for Bind {
+    fn fmt(&self, f: &mut Formatter<'_>) -> std::fmt::Result {
+        let mut entries: Vec<_> = self.bound_generics.iter().collect();
+        entries.sort_by_cached_key(|(k, _)| format!("{k:?}"));
+        f.write_str("Bind { bound_generics: ")?;
+        f.debug_map().entries(entries).finish()?;
+        f.write_str(" }")
+    }
 }
 
 impl Bind {
@@ -128,12 +139,23 @@ where
     }
 }
 
-#[derive(Clone, Debug, Eq, PartialEq)]
+#[derive(Clone, Eq, PartialEq)]
 pub struct XCompoundSpec {
     pub(crate) name: Identifier,
     pub(crate) generic_names: Vec<Identifier>,
     pub(crate) fields: Vec<XCompoundFieldSpec>,
     pub(crate) indices: HashMap<Identifier, usize>,
+}
+
+// `indices` is derived from `fields` and lives in a hash map of random iteration order: it is left out of the text
+impl Debug for XCompoundSpec {
+    fn fmt(&self, f: &mut Formatter<'_>) -> std::fmt::Result {
+        f.debug_struct("XCompoundSpec")
+            .field("name", &self.name)
+            .field("generic_names", &self.generic_names)
+            .field("fields", &self.fields)
+            .finish()
+    }
 }
 
 impl XCompoundSpec {
